@@ -261,6 +261,10 @@ def canary_service():
         def exposed_big(self):
             return 10 ** 5000
 
+        def exposed_bigpair(self):
+            # a by-reference object next to a value that cannot be encoded: registered, then taken back
+            return (Thing("fresh"), 10 ** 4400)
+
         def exposed_raise(self, k):
             raise [ValueError("x"), CustomErr("c", 1), KeyboardInterrupt(), SystemExit(3), StopIteration(1), EOFError("fake"),
                    ValueError(10 ** 5000)][k]
@@ -894,8 +898,8 @@ class Gen:
         for _ in range(r.range(1, 4)):
             k = r.below(13)
             self.seq += 1
-            meth = r.choice(["get", "get", "get", "pair", "fresh"])
-            args = () if meth == "fresh" else (k,)
+            meth = r.choice(["get", "get", "get", "pair", "fresh", "get"]) if not r.chance(1, 30) else "bigpair"
+            args = () if meth in ("fresh", "bigpair") else (k,)
             out.append(("v", (1, self.seq + 100, (8, (2, (root, (1, meth), (1, args)))))))
         return out
 
